@@ -24,7 +24,7 @@ package zkelog
 //@ func (*Proof).Verify
 //@   use bits
 //@   nopanic[C05]
-//@   modifies hstate(hash)
+//@   modifies hstate(hash), wlog(hash.h)
 //@   requires hash != nil && hash.h != nil && public.E != nil && public.E.L != nil && public.E.M != nil && public.ElGamalPublic != nil && public.Base != nil && public.Y != nil && (p != nil ==> shaped(p))
 
 //@ func challenge
